@@ -27,13 +27,14 @@ fn spec() -> Spec {
             Kind { name: "value", quick: 400_000, thorough: 10_000_000, serial: false },
             Kind { name: "delegation", quick: 150_000, thorough: 3_000_000, serial: false },
             Kind { name: "axes", quick: 100_000, thorough: 2_000_000, serial: false },
+            Kind { name: "shared_history", quick: 30_000, thorough: 800_000, serial: false },
         ],
-        rule: "value: non-degenerate robot x stack of depth 1..3 in any order from Tool/Base/Frame (uniform rotations and translations; axial tools/frames for the 5-DOF clauses) x q: forward == base*chain*tool in plain matrices, link poses (tool unchanged, base pre-multiplied, frame last), every answer of every inverse entry point lands on the request through the reference composition, continuation ordering and verbatim J6 hold at the outermost level. delegation: the same stacks over a SpyKinematics: for each of the 8 trait methods exactly one inner call of the same method, pose argument == analytically transformed request, scalar/previous arguments bit-identical, results passed through. axes: LinearAxis / Gantry forward == base*translation*inner forward. non-trivial = stack has a rotation != identity; distinct = hash(robot, stack, q, method)",
+        rule: "value: non-degenerate robot x stack of depth 1..3 in any order from Tool/Base/Frame (uniform rotations and translations; axial tools/frames for the 5-DOF clauses) x q: forward == base*chain*tool in plain matrices, link poses (tool unchanged, base pre-multiplied, frame last), every answer of every inverse entry point lands on the request through the reference composition, continuation ordering and verbatim J6 hold at the outermost level. delegation: the same stacks over a SpyKinematics: for each of the 8 trait methods exactly one inner call of the same method, pose argument == analytically transformed request, scalar/previous arguments bit-identical, results passed through. shared_history: 2-3 stacks of the same wrapper types but other transforms over ONE shared inner robot object, asked the bit-identical joint vector and requested pose in the order A,B,(C,)A,.. on one thread, each judged by its own reference composition. axes: LinearAxis / Gantry forward == base*translation*inner forward. non-trivial = stack has a rotation != identity; distinct = hash(robot, stack, q, method)",
         assumptions: vec![
             "5-DOF variants are only judged on stacks whose tools/frames are axial (translation along and rotation about the flange z axis), as the statement presupposes",
             "forward/link tolerance 1e-11*(1+reach); inverse accuracy 1e-6 m / 1e-6 rad + 1e-9",
         ],
-        minimums: vec![("oracle_evals", 5_000_000, 120_000_000), ("delegation.matrix_cells", 1_000_000, 20_000_000), ("axes.checked", 300_000, 6_000_000)],
+        minimums: vec![("oracle_evals", 5_000_000, 120_000_000), ("delegation.matrix_cells", 1_000_000, 20_000_000), ("axes.checked", 300_000, 6_000_000), ("history.steps", 120_000, 3_000_000)],
     }
 }
 
@@ -41,6 +42,7 @@ fn run_case(kind: &str, idx: u64, rng: &mut Rng, mon: &mut Mon, _tier: Tier) {
     match kind {
         "value" => value(idx, rng, mon),
         "delegation" => delegation(idx, rng, mon),
+        "shared_history" => shared_history(idx, rng, mon),
         _ => axes(idx, rng, mon),
     }
 }
@@ -55,15 +57,79 @@ fn value(idx: u64, rng: &mut Rng, mon: &mut Mon) {
     let depth = 1 + rng.usize(3);
     let axial = rng.bool(0.5);
     let layers = gen_stack(rng, depth, axial, &["Tool", "Base", "Frame"]);
-    let full_name = stack_name(&layers);
-    // signatures name the outermost wrapper and the depth, the witness holds the whole stack
-    let sname = format!("{}@depth{}", layers.last().map(|l| l.name()).unwrap_or("bare"), depth);
     let kin = build(Arc::new(OPWKinematics::new(to_params(&rp))), &layers);
     let q = if rng.bool(0.2) { joints_resting(rng, PI) } else { joints_uniform(rng, PI) };
+    let target = ref_forward(&rp, &layers, &q);
+    let j6 = *rng.pick(&[0.0, 1.0, -PI, q[5]]);
+    let mut prev = q;
+    for j in 0..6 {
+        prev[j] += rng.range(-0.5, 0.5);
+    }
+    check_stack(mon, &robot, &layers, kin.as_ref(), &q, &target, &prev, j6, axial, "");
+    if idx < 2 {
+        mon.sample(json!({"kind": "value", "robot": robot_json(&robot), "stack": stack_json(&layers), "q": jf(&q)}));
+    }
+}
+
+/// History workload: two or three stacks of the same wrapper types but different transforms share ONE
+/// inner robot object (two tools on one robot, the same robot in two cells); they are asked about the
+/// bit-identical joint vector and the bit-identical requested pose one after the other (A, B, A, ...).
+/// Every answer is judged by the reference composition of the stack that was asked.
+fn shared_history(idx: u64, rng: &mut Rng, mon: &mut Mon) {
+    let robot = gen_robot(rng, idx, RobotMode::NonDegenerate, 0.15);
+    let rp = robot.rp;
+    let depth = 1 + rng.usize(3);
+    let axial = rng.bool(0.5);
+    let first = gen_stack(rng, depth, axial, &["Tool", "Base", "Frame"]);
+    let kinds: Vec<&str> = first.iter().map(|l| l.name()).collect();
+    let mut stacks = vec![first.clone()];
+    for _ in 0..(1 + rng.usize(2)) {
+        let mut v = vec![];
+        for k in &kinds {
+            v.extend(gen_stack(rng, 1, axial, &[k]));
+        }
+        // sometimes only one layer differs from the first stack
+        if rng.bool(0.4) {
+            let keep = rng.usize(depth);
+            for (i, l) in first.iter().enumerate() {
+                if i != keep {
+                    v[i] = *l;
+                }
+            }
+        }
+        stacks.push(v);
+    }
+    let inner: Arc<dyn Kinematics> = Arc::new(OPWKinematics::new(to_params(&rp)));
+    let kins: Vec<Arc<dyn Kinematics>> = stacks.iter().map(|l| build(inner.clone(), l)).collect();
+    let q = if rng.bool(0.2) { joints_resting(rng, PI) } else { joints_uniform(rng, PI) };
+    let request = ref_forward(&rp, &stacks[0], &q);
+    let j6 = *rng.pick(&[0.0, 1.0, -PI, q[5]]);
+    let mut prev = q;
+    for j in 0..6 {
+        prev[j] += rng.range(-0.5, 0.5);
+    }
+    let n = stacks.len();
+    for step in 0..(2 * n + 1) {
+        let k = step % n;
+        mon.count("history.steps");
+        check_stack(mon, &robot, &stacks[k], kins[k].as_ref(), &q, &request, &prev, j6, axial, "history:");
+    }
+}
+
+#[allow(clippy::too_many_arguments)]
+fn check_stack(mon: &mut Mon, robot: &Robot, layers: &Vec<Layer>, kin: &dyn Kinematics, q: &[f64; 6], request: &Fr, prev: &[f64; 6], j6: f64, axial: bool, pfx: &str) {
+    let robot = *robot;
+    let rp = robot.rp;
+    let (q, prev) = (*q, *prev);
+    let depth = layers.len();
+    let layers = layers.clone();
+    let full_name = stack_name(&layers);
+    // signatures name the outermost wrapper and the depth, the witness holds the whole stack
+    let sname = format!("{}{}@depth{}", pfx, layers.last().map(|l| l.name()).unwrap_or("bare"), depth);
     let reach = stack_reach(&rp, &layers);
     let ftol = 1e-11 * (1.0 + reach);
     let target = ref_forward(&rp, &layers, &q);
-    let detail = |what: &str, extra: serde_json::Value| json!({"robot": robot_json(&robot), "stack": stack_json(&layers), "q": jf(&q), "clause": what, "extra": extra});
+    let detail = |what: &str, extra: serde_json::Value| json!({"robot": robot_json(&robot), "stack": stack_json(&layers), "q": jf(&q), "requested_pose": {"r": request.r, "p": request.p}, "clause": what, "extra": extra});
     mon.count(&format!("value.stack.{}", full_name));
     mon.nontrivial(hash_combine(hash_combine(robot_hash(&robot), hash_f64s(&q)), crate::rng::hash_str(&sname) ^ hash_f64s(&target.p)));
     // 1. forward
@@ -97,18 +163,14 @@ fn value(idx: u64, rng: &mut Rng, mon: &mut Mon) {
         }
     }
     // 3./4. inverse entry points
-    let pose = fr_to_iso(&target);
-    let j6 = *rng.pick(&[0.0, 1.0, -PI, q[5]]);
-    let mut prev = q;
-    for j in 0..6 {
-        prev[j] += rng.range(-0.5, 0.5);
-    }
+    let pose = fr_to_iso(request);
+    let target = *request;
     for e in ENTRIES {
         // the 5-DOF variants (and every entry point of a dof-5 robot) presuppose a tool on the flange axis
         if (e.is_5dof() || rp.dof == 5) && !axial {
             continue;
         }
-        let sols = match call(kin.as_ref(), e, &pose, &prev, j6) {
+        let sols = match call(kin, e, &pose, &prev, j6) {
             Ok(s) => s,
             Err(m) => {
                 mon.violation(&format!("panic:{}:{}", sname, e.name()), "wrapper entry point panicked", detail("no-panic", json!({"panic": m})));
@@ -158,9 +220,6 @@ fn value(idx: u64, rng: &mut Rng, mon: &mut Mon) {
                 mon.held();
             }
         }
-    }
-    if idx < 2 {
-        mon.sample(json!({"kind": "value", "robot": robot_json(&robot), "stack": stack_json(&layers), "q": jf(&q)}));
     }
 }
 
